@@ -669,6 +669,9 @@ func (vs *VCSet) queryText(obs []*Obligation) string {
 				}
 			}
 			if !ok {
+				// a hypothesis the clause does not name is switched off outright (a proof from fewer hypotheses
+				// is still a proof); left undetermined, the solvers spend their time deciding the flag
+				sb.WriteString("(assert (not " + fl + "))\n")
 				continue
 			}
 		}
